@@ -379,7 +379,7 @@ Definition restart (p : pool) (st : pstate) : pool * result :=
   let p2 := set_prune p1 h t in
   let '(l, _, ok) := list_evidence p2 (-1) in
   if ok then (set_list (set_size p2 (wrapu32 (Z.of_nat (length l)))) l, ROk)
-  else (p2, RErr).
+  else (set_pending p (p_pending p2), RErr).  (* NewPool fails; only its database effects remain *)
 
 Definition empty_pool (st : pstate) : pool :=
   {| p_pending := []; p_committed := []; p_list := []; p_size := 0; p_state := st;
